@@ -85,19 +85,49 @@ impl C14 {
     }
 }
 
+/// Templates the pool cannot contain: diagnostics whose place is chosen among several labels.
+pub fn extra_templates() -> Vec<(Program, String)> {
+    let exit = || vec![li(A7, 10), ecall()];
+    let mut v = Vec::new();
+    // an entry with two labels shared by two functions
+    let mut s = vec![label("main"), call("fa"), call("fb"), call("fb2")];
+    s.extend(exit());
+    s.extend([label("fa"), addi(A0, A0, 1), label("fb"), label("fb2"), addi(A0, A0, 2), ret()]);
+    v.push((Program { stmts: s }, "shared-entry-with-two-labels".to_string()));
+    // two and three undefined labels
+    let mut s = vec![label("main"), inst(Inst::Branch(BOp::Beq, T0, T1, "ua".into())), j("ub")];
+    s.extend(exit());
+    v.push((Program { stmts: s }, "two-undefined-labels".to_string()));
+    let mut s = vec![label("main"), j("uc"), inst(Inst::Branch(BOp::Beq, T0, T1, "ua".into())), call("ub"), inst(Inst::La(T0, "ua".into()))];
+    s.extend(exit());
+    v.push((Program { stmts: s }, "three-undefined-labels".to_string()));
+    // a duplicate label and an undefined one
+    let mut s = vec![label("main"), j("ua"), label("da"), addi(T0, T0, 1), label("da")];
+    s.extend(exit());
+    v.push((Program { stmts: s }, "duplicate-and-undefined-label".to_string()));
+    // a shared tail reached from two functions (the first shared instruction is reported)
+    let mut s = vec![label("main"), call("fa"), call("fb")];
+    s.extend(exit());
+    s.extend([label("fa"), li(A0, 1), j("tail"), label("fb"), li(A0, 2), label("tail"), label("tail2"), addi(A0, A0, 1), ret()]);
+    v.push((Program { stmts: s }, "shared-tail-with-two-labels".to_string()));
+    v
+}
+
 impl Property for C14 {
     fn id(&self) -> &'static str {
         "C14"
     }
     fn cases(&self, tier: Tier) -> u64 {
-        self.pool(tier).count()
+        self.pool(tier).count() + extra_templates().len() as u64
     }
     fn chunk(&self, _tier: Tier) -> u64 {
         10
     }
     fn run_case(&self, tier: Tier, case: u64, acc: &mut Acc) {
         acc.count("cases", 1);
-        let Some((prog, tag)) = self.pool(tier).get(case) else {
+        let n_pool = self.pool(tier).count();
+        let member = if case >= n_pool { extra_templates().into_iter().nth((case - n_pool) as usize) } else { self.pool(tier).get(case) };
+        let Some((prog, tag)) = member else {
             acc.count("not_a_member", 1);
             return;
         };
@@ -113,7 +143,7 @@ impl Property for C14 {
         let used = registers_used(&prog);
         let t_used: Vec<Reg> = used.iter().copied().filter(|r| TEMPS.contains(r)).collect();
         let s_used: Vec<Reg> = used.iter().copied().filter(|r| SAVEDS.contains(r)).collect();
-        let labels = labels_defined(&prog);
+        let labels = labels_mentioned(&prog);
         let mut variants: Vec<(String, BTreeMap<Reg, Reg>, BTreeMap<String, String>)> = Vec::new();
         // the full orbit of the temporaries the program mentions
         for a in injections(t_used.len().min(3), TEMPS.len()) {
